@@ -638,6 +638,24 @@ class C11(Prop):
                 a["fields"] = fs
                 arrs.append(a)
             case["arrays"] = arrs
+            if len(arrs) <= 40 and rng.random() < 0.12:  # the caller edits field values in place and merges again
+                then = []
+                for _ in range(rng.choice([1, 1, 2])):
+                    edits = []
+                    for _ in range(rng.randint(1, 3)):
+                        i = rng.randrange(len(arrs))
+                        f = rng.choice(arrs[i]["fields"])
+                        if not f["data"]:
+                            continue
+                        v = 4 * rng.randint(-5, 5) if f["dtype"] == "i8" else rng.choice([None, 0, rng.randint(-20, 20)])
+                        edits.append([i, f["name"], rng.randrange(len(f["data"])), v])
+                    st = {"edits": edits}
+                    if rng.random() < 0.3:
+                        st["mode"] = rng.choice(["replace", "mean", "sum"])
+                    if rng.random() < 0.3:
+                        st["fill"] = rng.choice([None, 0, 40, -7])
+                    then.append(st)
+                case["then"] = then
         else:
             arrs = []
             for place in places:
@@ -918,6 +936,9 @@ class C11(Prop):
             yield {**st, "arrays": [s1, only("Z", [0, 1]), s2]}
             yield {**st, "arrays": [s1, s2, only("Z", [0, 2])], "fill": 40}
             yield {**st, "arrays": [s1], "fill": 0}
+            yield {"kind": "structured", "ndim": 2, "mode": mode, "fill": 40, "arrays": [s1, {**s2, "layout": "strided"}, s3, s1],
+                   "share_objects": True,
+                   "then": [{"edits": [[0, "A", 1, 12], [1, "B", 0, None]]}, {"edits": [[2, "C", 1, None]], "mode": "sum", "fill": None}]}
         # structured: the same name with two dtypes; integer and float32 fields, first array with / without the field
         fa = lambda dt, data: {"name": "A", "dtype": dt, "data": data}
         fb = lambda dt, data: {"name": "B", "dtype": dt, "data": data}
@@ -1021,7 +1042,8 @@ class C11(Prop):
             return out, raw
 
         moved = [{**a, "off": [o + d for o, d in zip(a["off"], t)]} for a in descs]
-        res["translation"] = run(moved)[0] == expect
+        if not self.outside({**case, "arrays": moved}):  # the translated call is itself inside the quantifier
+            res["translation"] = run(moved)[0] == expect
         if mode != "replace" and len(descs) <= 4:
             dt0 = descs[0].get("dtype", "f8")
             res["permutations"] = all(run(list(p))[0] == expect for p in itertools.permutations(descs)
@@ -1302,9 +1324,10 @@ class C11(Prop):
         feats |= geom_feats(arrs)
         return feats
 
-    def eval_structured(self, register, case, ctx, feats, variant=False):
-        """one structured merge against the Lean model (`variant`: a translated / reordered form of a case, evaluated
-        without legs of its own)"""
+    def eval_structured(self, register, case, ctx, feats, variant=False, session=None):
+        """one structured merge against the Lean model (`variant`: a translated / reordered / edited form of a case,
+        evaluated without legs of its own; `session`: the argument objects of an earlier call of the same history, which the
+        caller has edited in place)"""
         import warnings
 
         ndim, mode = case["ndim"], case["mode"]
@@ -1337,24 +1360,31 @@ class C11(Prop):
                 arr[f["name"]] = vals  # exact: the values are representable in the field's dtype (checked above)
             return lay_out(arr, a.get("layout", "c"))
 
-        pairs = build_objects(case["arrays"], make, case.get("share_objects", False))
-        offsets, okind = make_offsets(case)
-        fobj, fkind = make_fill(case)
-        mobj = np.str_(mode) if case.get("mode_kind") == "npstr" else mode
-        args = Args(pairs, offsets, fobj, mobj, case.get("arrs_kind", "list"))
-        args.kinds = {"offsets": okind, "fill": fkind, "arrays": type(args.arrays).__name__, "mode": type(mobj).__name__}
+        if session is None:
+            pairs = build_objects(case["arrays"], make, case.get("share_objects", False))
+            offsets, okind = make_offsets(case)
+            fobj, fkind = make_fill(case)
+            mobj = np.str_(mode) if case.get("mode_kind") == "npstr" else mode
+            args = Args(pairs, offsets, fobj, mobj, case.get("arrs_kind", "list"))
+            args.kinds = {"offsets": okind, "fill": fkind, "arrays": type(args.arrays).__name__, "mode": type(mobj).__name__}
+            args.kept = []
+        else:
+            args = session
+            args.fill, args.mode = make_fill(case)[0], (np.str_(mode) if case.get("mode_kind") == "npstr" else mode)
+            args.before = args.picture()
         feats |= args_feats(args)
         if args.shared():
             feats.add("alias:same-object-twice")
 
-        kept = []
+        kept = args.kept
+        n_before = len(kept)
 
         def call(offs):
             try:
                 with warnings.catch_warnings():
                     warnings.simplefilter("ignore", RuntimeWarning)  # NaN cast to an integer field (pixel not compared)
                     res = register.overlap_structured_arrays(args.arrays, offs, fill=args.fill, mode=args.mode)
-                kept.append((res, res.tobytes()))
+                kept.append([res, res.tobytes()])
                 return {"fields": [{"name": n, "dtype": res.dtype[n].str.lstrip("<=|"), "shape": list(res.shape),
                                     "data": [impl_px(res.dtype[n].str.lstrip("<=|"), v) for v in res[n].ravel()]}
                                    for n in res.dtype.names]}
@@ -1370,9 +1400,11 @@ class C11(Prop):
             feats.add("calls:second-call-on-same-objects")
         # results handed out earlier stay as they were; writing into a result does not reach an input
         results_ok = all(r.tobytes() == b for r, b in kept)
-        if kept and kept[0][0].size and kept[0][0].flags.writeable:
-            aliased = any(np.shares_memory(kept[0][0], b) for _, b in args.pairs)
-            scribble(kept[0][0])
+        if len(kept) > n_before and kept[n_before][0].size and kept[n_before][0].flags.writeable:
+            mine = kept[n_before]
+            aliased = any(np.shares_memory(mine[0], b) for _, b in args.pairs)
+            scribble(mine[0])
+            mine[1] = mine[0].tobytes()
             results_ok = results_ok and not aliased and args.unchanged()
         rep = ctx.driver.call("c11.structuredD", mode=mode, fill=dfill, ndim=ndim,
                               arrays=[{"off": a["off"], "shape": a["shape"],
@@ -1476,13 +1508,52 @@ class C11(Prop):
                 o = self.eval_structured(register, c, ctx, set(), variant=True)
                 return True if o["undetermined"] else bool(o["spec_ok"] and o["model_ok"])
 
-            meta_i = {"translation": judged_ok({**base, "arrays": [{**a, "off": [o + d for o, d in zip(a["off"], t)]}
-                                                                    for a in case["arrays"]]})}
-            feats.add("meta:translation")
+            moved = {**base, "arrays": [{**a, "off": [o + d for o, d in zip(a["off"], t)]} for a in case["arrays"]]}
+            meta_i = {}
+            if not self.outside(moved):
+                meta_i["translation"] = judged_ok(moved)
+                feats.add("meta:translation")
             if len(case["arrays"]) <= 4:
                 meta_i["permutations"] = all(judged_ok({**base, "arrays": list(p)}) for p in itertools.permutations(case["arrays"]))
                 feats.add("meta:permutations")
             meta_s = {k: True for k in meta_i}
+        if case.get("then") and not variant and "fields" in got:
+            # the caller edits field values of the same image objects in place and merges again (other mode / fill)
+            cur = {k: v for k, v in case.items() if k not in ("meta", "repeat", "then")}
+            cur["arrays"] = [{**a, "fields": [{**f, "data": list(f["data"])} for f in a["fields"]]} for a in case["arrays"]]
+            same = {}
+            for i, (v, _) in enumerate(args.pairs):
+                same.setdefault(id(v), []).append(i)
+            hist = []
+            for st in case["then"]:
+                for i, nm, k, v in st.get("edits", []):
+                    if i >= len(cur["arrays"]):
+                        continue
+                    fl = [f for f in cur["arrays"][i]["fields"] if f["name"] == nm]
+                    if not fl or k >= len(fl[0]["data"]):
+                        continue
+                    view = args.pairs[i][0]
+                    ro = not view.flags.writeable
+                    if ro:
+                        view.flags.writeable = True
+                    view[nm][np.unravel_index(k, view.shape)] = fval(v, fl[0].get("negzero", False))
+                    if ro:
+                        view.flags.writeable = False
+                    for j in same[id(view)]:
+                        for f in cur["arrays"][j]["fields"]:
+                            if f["name"] == nm:
+                                f["data"][k] = v
+                cur = {**cur, "mode": st.get("mode", cur["mode"]), "fill": st.get("fill", cur["fill"])}
+                o = self.eval_structured(register, cur, ctx, set(), variant=True, session=args)
+                hist.append(True if o["undetermined"] else bool(o["spec_ok"] and o["model_ok"]))
+            meta_i = {**(meta_i or {}), "history": hist}
+            meta_s = {**(meta_s or {}), "history": [True] * len(hist)}
+            feats.add("history:edit-then-merge-again")
+        outside = self.outside(case)
+        if outside:
+            differs = {"outside:differs-from-model(recorded only)"} if core.canon(impl_cmp) != core.canon(model) else set()
+            return outcome({"result": impl_cmp}, {"result": model}, {"result": key(spec)}, spec_ok=True, model_ok=True,
+                           undetermined=True, hyp=False, features=feats | differs | {"outside:" + o + "(recorded only)" for o in outside})
         impl = {"result": impl_cmp, "inputs_unchanged": unchanged, "results_are_the_callers": results_ok, "meta": meta_i}
         extra = {"results_are_the_callers": True}
         if again is not None:  # the second call on the same objects returned the same
